@@ -140,9 +140,14 @@ func c11FatMkdir(kind int, p string) {
 	c11FatEnd(img, ro, err, "read-only: Mkdir of a new directory returns an error")
 }
 
-func VP_C11_fat_mkdir_new()        { c11FatMkdir(c11BackendFile, "/NEWDIR") }
-func VP_C11_fat_mkdir_nested()     { c11FatMkdir(c11BackendFile, "/SUBDIR/NEWDIR") }
-func VP_C11_fat_mkdir_new_refuse() { c11FatMkdir(c11BackendRefuse, "/NEWDIR") }
+func VP_C11_fat_mkdir_new()    { c11FatMkdir(c11BackendFile, "/NEWDIR") }
+func VP_C11_fat_mkdir_nested() { c11FatMkdir(c11BackendFile, "/SUBDIR/NEWDIR") }
+func VP_C11_fat_mkdir_new_refuse() {
+	c11FatMkdir(c11BackendRefuse, "/NEWDIR")
+	if vp.Thorough() {
+		c11FatRefuseAll()
+	}
+}
 
 // VP_C11_fat_openfile_existing: OpenFile(existing file, arbitrary flags) and then Write on the handle.
 // On a read-only image: OpenFile with any of the write/create/append/truncate flags must return an
@@ -380,11 +385,5 @@ func c11FatRefuseAll() {
 		}
 		vp.AllowPanic()
 		c11FatEnd(img, ro, err, "backend refuses Writable(): the mutator returns an error")
-	}
-}
-
-func VP_C11_fat_refuse_all() {
-	if vp.Thorough() {
-		c11FatRefuseAll()
 	}
 }
